@@ -123,6 +123,18 @@ CLAIMED = {
               "transport solves; random permutations (incl. ion-before-parent orders) are compared on composition, species enthalpies and all scalar outputs."),
         note="Trusted: as C02; tolerances as C04; electron-dependent conductivity compared above x_e=1e-7, emission when carried by resolved species.",
         ref="§3-C05"),
+    "C10": dict(
+        technique="Coq theorems over R: monotone Boltzmann mean for arbitrary level lists, tanh monotonicity -> every internal-energy kernel strictly increasing in T -> frozen mixture enthalpy strictly increasing; revealed-preference pressure response of exact minimisers of the ideal Gibbs function built from the solver's chemical-potential kernel; single-ionisation closed form; + T / P ladders on the implementation",
+        text=("proof, partial (the weakest proof coverage of the set): proved — the internal energy of every species class (regenerated kernels; atomic level sums for any level list "
+              "in any order) strictly increases with T at fixed lowering, hence the regenerated mixture-enthalpy kernel strictly increases with T at frozen composition, reference energies "
+              "and lowerings (frozen heat capacity > 0); for the ideal mixture (entries not changing with P) G(N;P2) = G(N;P1) + kT ln(P2/P1) sum N and exact minimisers have sum N "
+              "non-increasing, mean molar mass non-decreasing in P (any species, any reactions); for {X, X+, e} mass action fixes c+ ce / c0 independently of P and the electron "
+              "mole fraction strictly decreases with P. NOT proved: reactive heat capacity (composition moving with T), T-monotonicity of the mean molar mass, x_e(P) for general "
+              "mixtures, anything with the Stewart-Pyatt lowering differing between the two states — validated on random temperature ladders (1000..25000 K, pairs down to 0.1 % apart) "
+              "at several pressures and pressure ladders (1e4..1e6 Pa) at several temperatures for random shipped species subsets and x0."),
+        note=("Trusted: Coq kernel; Reals axioms as printed; translator; the theorems concern exact minimisers / exact mass action (the solver's distance from them is C01); "
+              "Uint kernel tied to the implementation on the ladders through the extracted model."),
+        ref="§3-C10"),
     "C11": dict(
         technique="Coq theorems: every Devoto block regenerated from functions_transport.py equals the first-principles matrix element built from bracket-integral tables (generating function), for any number of species / masses / densities / collision integrals; rigid-sphere Chapman-Cowling ratios from the tables",
         text=("proof (coefficients full; one recorded finding): the eight upper q blocks q00,q01,q02,q03,q11,q12,q13,q33, the three qhat blocks and the six mass-ratio "
